@@ -25,8 +25,9 @@ func siteKind(fi *FuncInfo, site string) string {
 }
 
 func hasSite(list []string, s string) bool {
+	base := func(x string) string { return x[strings.LastIndex(x, ".")+1:] }
 	for _, x := range list {
-		if x == s {
+		if x == s || (strings.Contains(s, ".") && strings.Contains(x, ".") && base(x) == base(s)) {
 			return true
 		}
 	}
@@ -101,6 +102,10 @@ func judgeC07(rep *core.Report, fi *FuncInfo, recs []*execmon.Rec) {
 		rep.Violate(v)
 	}
 	for _, r := range recs {
+		if strings.HasPrefix(r.SigErr, "driver runtime panic") {
+			rep.Inconclusive("oracle panic: " + r.Scen + "/" + r.Fn + ": " + r.SigErr)
+			continue
+		}
 		if r.SigErr != "" || !fi.Method.HasErr {
 			continue
 		}
@@ -177,28 +182,23 @@ func RunC07(e *core.Env) int {
 	if e.Tier == "thorough" {
 		n, k = 3000, 3
 	}
-	if cb, err := NewBatch(e, "corpus", corpusC07()); err == nil {
-		cb.RunTool(e, true)
-		for _, c := range cb.Cases {
-			rep.Eval(1)
-			if c.Run.Exit != 0 {
-				if c.Run.Crashed() {
-					rep.Violate(&core.Violation{Property: "C07", Monitor: "static", Symptom: "crash", Case: c.S.ID, Detail: core.Trunc(c.Run.Stderr, 400), Files: c.ReplayFiles()})
-				} else {
-					rep.Count("err_callback_in_noerr_method_rejected", 1)
-					rep.Distinct("rejected|" + c.S.ID)
-				}
+	runExecBatchesC(e, rep, "errs", n, 150, execmon.Job{NRandom: k, Faults: true}, corpusC07(), func(b *Batch, eo *ExecOut) {
+		// corpus cases: rejected = fine; accepted = judged like everything else (statically and dynamically)
+		for _, c := range b.Cases {
+			if !strings.HasPrefix(c.S.ID, "kc07") {
 				continue
 			}
-			if c.Plans != nil {
-				_, infos := PrepareUnit(c)
-				for _, fi := range infos {
-					judgeC07Static(rep, fi)
-				}
+			rep.Eval(1)
+			switch {
+			case c.Run.Crashed():
+				rep.Violate(&core.Violation{Property: "C07", Monitor: "static", Symptom: "crash", Case: c.S.ID, Detail: core.Trunc(c.Run.Stderr, 400), Files: c.ReplayFiles()})
+			case c.Run.Exit != 0:
+				rep.Count("unfit_error_callback_rejected", 1)
+				rep.Distinct("rejected|" + c.S.ID)
+			default:
+				rep.Count("unfit_error_callback_accepted_and_judged", 1)
 			}
 		}
-	}
-	runExecBatches(e, rep, "errs", n, 150, execmon.Job{NRandom: k, Faults: true}, func(b *Batch, eo *ExecOut) {
 		for id, infos := range eo.Infos {
 			for key, fi := range infos {
 				judgeC07Static(rep, fi)
@@ -247,5 +247,39 @@ func corpusC07() []*scen.Scenario {
 	mk("kc07arggetter", []scen.Notation{scen.N("map", "$2.Deep()", "Y")}, []scen.Param{{Type: "AX"}}, []string{"AX.Deep"}, "")
 	mk("kc07argstyle", []scen.Notation{scen.N("style", "arg"), scen.N("map", "$2.Deep()", "Y")}, []scen.Param{{Type: "AX"}}, []string{"AX.Deep"}, "")
 	mk("kc07hook", []scen.Notation{scen.N("postprocess", "postE")}, nil, []string{"postE"}, "postE")
+	// the same error-returning hook on two methods with identical operand types, the one WITH an error
+	// result sorting first: the second must still be rejected
+	{
+		b := scen.NewBuilder(nil, scen.Profile{}, "kc07hooktwice", "kc07hooktwice")
+		b.Struct("", "A", "X int")
+		b.Struct("", "B", "X int")
+		b.Func("func postE(d *B, s *A) error {\n\tvtr.Enter(\"postE\", d, s)\n\tif vtr.Fail(\"postE\") {\n\t\treturn vtr.ErrOf(\"postE\")\n\t}\n\treturn nil\n}\n", true, "postE")
+		m1 := &scen.Method{Name: "AConv", Src: scen.Param{Type: "*A"}, Dst: scen.Param{Type: "*B"}, HasErr: true, Notations: []scen.Notation{scen.N("postprocess", "postE")}, ErrSites: []string{"postE"}, PostSite: "postE"}
+		m2 := &scen.Method{Name: "BConv", Src: scen.Param{Type: "*A"}, Dst: scen.Param{Type: "*B"}, Notations: []scen.Notation{scen.N("postprocess", "postE")}, ErrSites: []string{"postE"}, PostSite: "postE"}
+		s := b.Manual(m1, m2)
+		s.InConv = false
+		out = append(out, s)
+	}
+	// callbacks whose "error" result is a CONCRETE pointer type implementing error: wiring them through an
+	// `err error` variable would turn a typed nil into a non-nil error. They must be rejected, or - if a
+	// future version accepts them - return a nil error when nothing fails (judged dynamically below).
+	mkTyped := func(id string, notations []scen.Notation, funcs []string, reg []string, errSites []string, post string) {
+		b := scen.NewBuilder(nil, scen.Profile{}, id, id)
+		a := b.Struct("", "A", "X int", "gY int")
+		a.Methods = append(a.Methods, "func (r A) GetY() (int, *vtr.Err) {\n\tvtr.Enter(\"A.GetY\")\n\tif vtr.Fail(\"A.GetY\") {\n\t\treturn 0, vtr.ErrOf(\"A.GetY\").(*vtr.Err)\n\t}\n\treturn r.gY, nil\n}\n")
+		b.Struct("", "B", "X int", "Y int")
+		for i, f := range funcs {
+			b.Func(f, true, reg[i])
+		}
+		m := &scen.Method{Name: "Typed", Src: scen.Param{Type: "*A"}, Dst: scen.Param{Type: "*B"}, HasErr: true, Notations: notations, ErrSites: errSites, PostSite: post}
+		s := b.Manual(m)
+		s.InConv = false
+		out = append(out, s)
+	}
+	cvT := "func cvT(v int) (int, *vtr.Err) {\n\tvtr.Enter(\"cvT\", v)\n\tif vtr.Fail(\"cvT\") {\n\t\treturn 0, vtr.ErrOf(\"cvT\").(*vtr.Err)\n\t}\n\treturn v + 1, nil\n}\n"
+	postT := "func postT(d *B, s *A) *vtr.Err {\n\tvtr.Enter(\"postT\", d, s)\n\tif vtr.Fail(\"postT\") {\n\t\treturn vtr.ErrOf(\"postT\").(*vtr.Err)\n\t}\n\treturn nil\n}\n"
+	mkTyped("kc07typedconv", []scen.Notation{scen.N("conv", "cvT", "X", "Y")}, []string{cvT}, []string{"cvT"}, []string{"cvT"}, "")
+	mkTyped("kc07typedgetter", []scen.Notation{scen.N("map", "GetY()", "Y")}, nil, nil, []string{"A.GetY"}, "")
+	mkTyped("kc07typedhook", []scen.Notation{scen.N("postprocess", "postT")}, []string{postT}, []string{"postT"}, []string{"postT"}, "postT")
 	return out
 }
